@@ -388,6 +388,7 @@ pub fn run(a: &Args) {
     };
     spaces::space_shapes(&cfg, &mut f);
     spaces::space_scalars(&cfg, &mut f);
+    spaces::space_large(&cfg, &mut f);
     // depth sweep
     let depths: Vec<usize> = if th { (1..=80).collect() } else { vec![1, 2, 3, 32, 63, 64, 65, 66, 80] };
     for kind in ["struct", "list", "map"] {
